@@ -62,6 +62,10 @@ def configs(tier):
                 out.append(("incompatible", delim, n, what))
         out.append(("append_missing", delim, 0, 2))
         out.append(("recfile_append", delim, 2, 1))
+        out.append(("spelled_path", delim, 1, 1))
+    # text: chunks in either byte order through one handle (byte order is not part of a text file's dtype)
+    for first in ("native", "swapped"):
+        out.append(("handle_mixed_order", ",", 1, first))
     # records.cpp itself: rows always go to the end of the file, the row count is rewritten in place
     for n in (1, 2):
         out.append(("xx_update_row_count", None, n, 0))
@@ -96,16 +100,24 @@ def _env(cx):
 
         @staticmethod
         def expanduser(p):
-            return p
+            return HOME + p[1:] if p.startswith("~/") else p
 
         @staticmethod
         def expandvars(p):
-            return p
+            return p.replace("$DATA", "/data").replace("${DATA}", "/data")
 
     class Os(object):
         path = OsPath
     ld = loader.Loader(stubs={"esutil.recfile.records": mod, "os": Os, "os.path": OsPath}, builtin_overrides={"open": recmodel.make_open(vfs)})
     return vfs, ld
+
+
+HOME = "/home/u"
+
+
+def OsExpand(p):
+    p = HOME + p[1:] if p.startswith("~/") else p
+    return p.replace("$DATA", "/data").replace("${DATA}", "/data")
 
 
 def _rows(f, name):
@@ -225,6 +237,35 @@ def harness(cx, cfg):
             return
         cx.fail("%s: an append whose fields differ in %s was accepted" % (tag, kind))
         return
+    if what == "spelled_path":
+        # the same file named through ~ and through an environment variable: appends must find it
+        spell = ("~/t.rec", "$DATA/t.rec")[cx.choice("spelling", 2)]
+        real = OsExpand(spell)
+        f2 = vfs.get(real)
+        c0b, w0b = _chunk(cx, DESCR, 1, "p")
+        sf.write(c0b, spell, delim=delim, header=dict(HDR))
+        cx.check("%s: a file named with ~ or $VAR is created under the expanded name" % tag, vfs.exists(real) and f2.nrows == 1)
+        c1, w1 = _chunk(cx, DESCR, k, "a")
+        sf.write(c1, spell, append=True, delim=delim)
+        cx.check("%s: an append through a path spelled with ~ or $VAR keeps the earlier rows" % tag, f2.nrows == 1 + k)
+        first = f2.header.split("\n")[0]
+        cx.check("%s: ... and the SIZE line holds the total" % tag, first == "SIZE = %20d" % (1 + k))
+        cx.check("%s: ... without truncating the file" % tag, sum(1 for e in f2.log if e[0] == "truncate") == 1)
+        return
+    if what == "handle_mixed_order":
+        first_kind = cfg[3]
+        d_nat, d_swp = DESCR, BAD["order"]
+        c1, w1 = _chunk(cx, d_nat if first_kind == "native" else d_swp, 1, "a")
+        c2, w2 = _chunk(cx, d_swp if first_kind == "native" else d_nat, 1, "b")
+        try:
+            with sf.SFile(FNAME, mode="r+") as h:
+                h.write(c1)
+                h.write(c2)
+        except recmodel.ContractViolation as e:
+            cx.fail("text file, chunks of both byte orders through one handle: %s" % (e,))
+            return
+        _check_file(cx, "text file, chunks of both byte orders through one handle", f, ld, [w0, w1, w2], delim, HDR)
+        return
     if what == "recfile_append":
         ru = ld.get("esutil.recfile.Util")
         c1, w1 = _chunk(cx, DESCR, 1, "a")
@@ -279,6 +320,42 @@ def replay(cand):
                 return {"reproduced": True, "key": "%s:header" % what, "what": "%s (%s): user header key %r = %r after the operation" % (desc, tag, k, h.get(k))}
         return None
     try:
+        if what == "spelled_path":
+            old_env = {k: os.environ.get(k) for k in ("HOME", "DATA")}
+            os.environ["HOME"] = d
+            os.environ["DATA"] = d
+            try:
+                for spell in ("~/t1.rec", "$DATA/t2.rec", "${DATA}/t3.rec"):
+                    real = os.path.expandvars(os.path.expanduser(spell))
+                    c0, c1 = _real_chunk(DESCR, 2, 1), _real_chunk(DESCR, 1, 50)
+                    sfile.write(c0, spell, delim=delim, header=dict(HDR))
+                    sfile.write(c1, spell, append=True, delim=delim)
+                    fn = real
+                    r = verify([c0, c1], HDR, "create then append through the path %r" % spell)
+                    if r:
+                        r["key"] = "append:spelled-path"
+                        return r
+            finally:
+                for k, v in old_env.items():
+                    if v is None:
+                        os.environ.pop(k, None)
+                    else:
+                        os.environ[k] = v
+            return no
+        if what == "handle_mixed_order":
+            first_kind = cfg[3]
+            nat, swp = _real_chunk(DESCR, 1, 50), _real_chunk(BAD["order"], 2, 70)
+            c0 = _real_chunk(DESCR, 2, 1)
+            seq = [nat, swp] if first_kind == "native" else [swp, nat]
+            sfile.write(c0, fn, delim=delim, header=dict(HDR))
+            with sfile.SFile(fn, mode="r+") as h:
+                for c in seq:
+                    h.write(c)
+            r = verify([c0] + [c.astype(c0.dtype) for c in seq], HDR, "chunks of both byte orders (%s first) through one handle" % first_kind)
+            if r:
+                r["key"] = "handle:mixed-order"
+                return r
+            return no
         if what in ("xx_update_row_count", "xx_write_binary"):
             # the position-dependent case: read part of the file through an r+ handle, then write
             for dl in (None, ","):
